@@ -84,6 +84,23 @@ def wide_range(pattern):
     return False
 
 
+def still_hangs(ck, b):
+    """A watchdog expiry inside the sweep can be the machine being busy: the one input is run again, alone, in a process of
+    its own, with 120 s; only an entry point that still does not return counts as hanging."""
+    kind = "pattern" if b["ep"] in ("nfa.Parse", "regex ast.Parse", "regexToDFA") else "rawspec"
+    vp.write_ndjson(os.path.join(ck.work, "one_in.ndjson"), [{"id": "one", "kind": kind, "text": b["input"]}])
+    os.makedirs(os.path.join(ck.work, "gd1"), exist_ok=True)
+    try:
+        ck.run_harness(["totality", "-in", "one_in.ndjson", "-out", "one_out.ndjson", "-budget", "120", "-mutate=false", "-gendir", os.path.join(ck.work, "gd1")], timeout=900)
+    except vp.Infra:
+        return True
+    for d in vp.read_ndjson(os.path.join(ck.work, "one_out.ndjson")):
+        for x in d["bad"] or []:
+            if x["kind"] == "timeout":
+                return True
+    return False
+
+
 def run(ck):
     quick = ck.tier == "quick"
     ck.stage_specs()
@@ -169,6 +186,9 @@ def run(ck):
         if b["kind"] == "timeout" and wide_range(b["input"]) and ck.known("HUGE-RANGE", what):
             continue
         if b["kind"] == "timeout" and _re.search(r"\{\s*\d{4,}", b["input"]) and ck.known("HUGE-REPETITION", what):
+            continue
+        if b["kind"] == "timeout" and not still_hangs(ck, b):
+            ck.notes.append("slow, not hanging (returned within 120 s when run alone): %s on %r" % (b["ep"], b["input"][:80]))
             continue
         ck.violation(what, {"property": "C14", "kind": b["kind"], "ep": b["ep"], "input": b["input"]})
     for c in cli:
